@@ -35,9 +35,9 @@ BACKGROUND = [None, None, 'red', 'rgba(0,0,255,0.5)', 'rgba(0,0,0,0)', 'linear-g
 BORDER = [None, None, None, '2px solid green', '3px dashed rgba(0,0,0,0.5)', '2px dotted blue', '4px double red',
           '4px groove gray', '4px ridge gray', '3px inset gray', '3px outset gray', '1px solid transparent']
 # Every CSS Color 4 syntax tinycss2 accepts: legacy and modern rgb(), hex, named, hsl, hwb, lab, lch, oklab, oklch,
-# color() in every predefined space, with alpha, and with `none` components (painted as 0).  `none` in a colour space
-# WeasyPrint does not support (display-p3, a98-rgb, prophoto-rgb, rec2020, srgb-linear) is the listed finding
-# none-component-unsupported-space and is left out.
+# color() in every predefined space, with alpha, and with `none` components (painted as 0), also in the colour spaces
+# WeasyPrint does not support and writes as sRGB (display-p3, a98-rgb, prophoto-rgb, rec2020, srgb-linear: fixed finding
+# none-component-unsupported-space).
 COLOURS = [
     'blue', 'rgba(255,0,0,0.5)', 'rgba(0,0,0,0.25)', '#0f0', 'rgb(0 128 0)', 'rgb(10% 20% 30% / 50%)',
     'rgb(none 128 0)', 'rgb(255 none none / 0.5)', 'rgb(none none none)', 'rgba(none 0 255 / 0.25)',
@@ -47,7 +47,8 @@ COLOURS = [
     'oklab(0.5 0.1 -0.1)', 'oklab(0.5 none 0.1)', 'oklch(0.5 0.2 30 / 0.5)', 'oklch(0.5 0.2 none)',
     'color(xyz-d50 0.2 0.3 0.4)', 'color(xyz-d50 none 0.3 0.4)', 'color(xyz 0.2 none 0.4)', 'color(xyz-d65 0.2 0.3 0.4)',
     'color(display-p3 1 0 0)', 'color(srgb-linear 0.5 0.25 0.125)', 'color(a98-rgb 0 1 0 / 0.5)',
-    'color(prophoto-rgb 0.5 0.5 0)', 'color(rec2020 0 0 1)', 'transparent', 'currentcolor',
+    'color(prophoto-rgb 0.5 0.5 0)', 'color(rec2020 0 0 1)', 'color(display-p3 none 0 1)',
+    'color(rec2020 0 none 1 / 0.5)', 'color(srgb-linear none none 0.5)', 'transparent', 'currentcolor',
 ]
 COLOR = [None, None] + COLOURS
 # colours `Color.to('srgb')` can convert: the only ones given to gradients and 3D border styles (anything else is the
@@ -56,10 +57,22 @@ SRGB_FAMILY = [c for c in COLOURS if c.split('(')[0] in ('rgb', 'rgba', 'hsl', '
                or c.startswith('color(srgb ')]
 BLOCK_TAGS = ['div', 'div', 'div', 'p', 'section', 'article', 'blockquote', 'h1', 'h3']
 INLINE_TAGS = ['span', 'span', 'em', 'a', 'b']
-WORDS = ['aa', 'bb cc', 'd', 'ee ff gg', '&#x20;', 'hh']
+# the two Hebrew words are drawn with a fallback font (and right to left): several Pango fonts in one line of text
+WORDS = ['aa', 'bb cc', 'd', 'ee ff gg', '&#x20;', 'hh', 'a \u05d0\u05d1 b', '\u05d0\u05d1']
+# characters without a glyph (default ignorable: PANGO_GLYPH_EMPTY) and text mixing them with visible glyphs: a run made
+# only of them selects its font (`Tf`) without adding anything to the font's cmap / widths
+GLYPHLESS = ['&#x200b;', '&#x2060;', '&#x200b;&#x200b;', '&#xfeff;', '&#x200d;', 'a&#x200b;b', '&#x200b; &#x200b;', '&shy;']
+FONT = [None] * 18 + ['font-family:monospace', 'font-family:serif', 'font-family:DejaVu Sans',
+        'font-weight:bold', 'font-style:italic', 'font-family:monospace;font-weight:bold', 'font-size:14px',
+        'font-family:serif;font-style:italic', 'font-variant:small-caps']
 
 
 ANCHOR_NAMES = ['b', 'a', 'Z', 'ab', 'a-1', 'z9', 'a\u00e9', '\u00fc1', '\u4e2d', 'b\u00e9', '\U0001f600', '\uffee']
+
+
+# file names of attachments: prefixes of one another, characters below `)` and characters pydyf escapes, so that the
+# order of the /EmbeddedFiles name tree is exercised; equal names too
+ATTACHMENT_NAMES = ['a', 'a b', 'b.txt', 'a.txt', 'a(1)', 'aA', 'notes', 'notes (1)', '\u00e9.txt', 'a', 'z', 'a\\b', 'a!']
 
 
 def svg_uri(rng):
@@ -86,6 +99,9 @@ def style_for(rng, inline=False):
     maybe('border', BORDER + [f'{rng.choice(["2px solid", "3px dashed", "2px dotted", "4px double"])} {colour()}'
                               for _ in range(3)] + [f'{rng.choice(["4px groove", "3px inset", "4px ridge"])} {srgb()}'])
     maybe('color', COLOR)
+    font = rng.choice(FONT)
+    if font:
+        parts.append(font)
     maybe('outline', [None, None, None, f'2px solid {colour()}'])
     maybe('text-decoration', [None, None, None, f'underline {colour()}'])
     maybe('overflow', [None, None, 'hidden', 'hidden', 'scroll'])
@@ -117,7 +133,9 @@ def inline_content(rng, depth):
     out = []
     for _ in range(rng.choice([1, 1, 2, 3])):
         kind = rng.random()
-        if kind < 0.55 or depth <= 0:
+        if kind < 0.08:
+            out.append(rng.choice(GLYPHLESS))
+        elif kind < 0.55 or depth <= 0:
             out.append(rng.choice(WORDS))
         elif kind < 0.8:
             tag = rng.choice(INLINE_TAGS)
@@ -189,7 +207,13 @@ def document(rng, depth=3):
     if rng.random() < 0.5:       # internal links to anchors with ASCII and non-ASCII names (the /Dests name array)
         for name in rng.sample(ANCHOR_NAMES, rng.choice([1, 2, 3, 4])):
             body += f'<a href="#{name}">k</a><i id="{name}">v</i> '
-    html = (f'<html lang="en" style="{html_style}"><head><title>t</title><meta name="author" content="a">'
+    links = ''
+    if rng.random() < 0.2:       # attachments of the document (<link>) and of an element (<a rel=attachment>)
+        for i in range(rng.choice([1, 2, 3])):
+            links += f'<link rel="attachment" href="data:text/plain,f{i}" title="d{i}">'
+        if rng.random() < 0.5:
+            body += '<a rel="attachment" href="data:text/plain,el">att</a>'
+    html = (f'<html lang="en" style="{html_style}"><head><title>t</title>{links}<meta name="author" content="a">'
             f'<style>{css}</style></head><body style="{body_style}">{body}</body></html>')
     return html, geo
 
@@ -207,4 +231,6 @@ def options(rng, variant=None):
         'pdf_identifier': rng.choice([None, None, b'abc']),
         'pdf_version': rng.choice([None, None, '1.4', '1.7', '2.0']),
     }
+    if rng.random() < 0.25:
+        opts['attachments'] = [[name, 'x' + name] for name in rng.sample(ATTACHMENT_NAMES, rng.choice([1, 2, 3, 4]))]
     return opts
